@@ -1,6 +1,7 @@
 """C17 - ILP options (copies, weights, constraints) are honoured; sums come out ascending."""
 import random
 from runtime import harness as H
+from props import _ded as D
 
 K4_WITNESS = {"values": [22, 163, 24], "k": 3, "obj": "max-min", "weights": [3, 5, 3], "copies": [1, 2, 1]}
 F4_WITNESS = {"values": [183, 15, 83], "k": 2, "obj": "max-min", "weights": [5, 1], "copies": 2}
@@ -57,4 +58,6 @@ def t3(rep, tier, seed):
 def run(rep, tier, seed):
     rep.level = "exploration"
     rep.assume("A1", "A3", "A4", "A6", "A8")
+    D.run_contracts(rep, "C17", [("contracts.ilp", "ilp")], tier)
     t3(rep, tier, seed)
+    D.link_falsifier(rep)
